@@ -134,24 +134,17 @@ impl<T: Copy + Debug + PartialOrd> SingleLinkedList<T> {
     /// Assumes the list is already sorted. If the list is not sorted,
     /// the resulting order is undefined.
     pub fn insert_sorted(&mut self, elem: T) {
+        // advance to the first link whose node is not smaller than the element;
+        // that may be the head itself, or the end of the list
         let mut current = &mut self.head;
-        while let Some(node) = current {
-            let next_is_smaller = match &node.next {
-                Some(next) => next.elem < elem,
-                None => false,
-            };
-
-            if next_is_smaller {
-                current = &mut node.next;
-            } else {
-                let new_node = Box::new(Node {
-                    next: node.next.take(),
-                    elem,
-                });
-                node.next = Some(new_node);
-                return;
-            }
+        while current.as_ref().is_some_and(|node| node.elem < elem) {
+            current = &mut current.as_mut().unwrap().next;
         }
+        let new_node = Box::new(Node {
+            next: current.take(),
+            elem,
+        });
+        *current = Some(new_node);
     }
 
     /// Removes all elements from the list.
